@@ -356,7 +356,15 @@ where
     // moves to the first record positon, ignoring newline characters
     #[inline(never)]
     fn init(&mut self) -> Result<bool, Error> {
-        if let Some((line_num, pos, byte)) = self.first_byte()? {
+        let first = match self.first_byte() {
+            Ok(first) => first,
+            Err(e) => {
+                // line counting cannot be resumed after a failed refill
+                self.state = State::Finished;
+                return Err(e);
+            }
+        };
+        if let Some((line_num, pos, byte)) = first {
             if byte == b'>' {
                 self.buf_pos.start = pos;
                 // bytes of leading blank lines already dropped from the buffer are
@@ -473,6 +481,16 @@ where
     // Returns true if if another record was found (false if at the end of the input).
     // **note**: self.state can be modified to State::Finished
     fn resume_incomplete_search(&mut self, make_room: bool) -> Result<bool, Error> {
+        let res = self._resume_incomplete_search(make_room);
+        if res.is_err() {
+            // The coordinates of the current record are undefined after a failed
+            // refill / refused growth: the error is terminal
+            self.state = State::Finished;
+        }
+        res
+    }
+
+    fn _resume_incomplete_search(&mut self, make_room: bool) -> Result<bool, Error> {
         loop {
             if !make_room || self.buf_pos.start == 0 {
                 // first record -> buffer too small
@@ -643,8 +661,15 @@ where
             return Ok(());
         }
 
-        self.buf_reader.seek(io::SeekFrom::Start(to.byte))?;
-        fill_buf(&mut self.buf_reader)?;
+        let res = self
+            .buf_reader
+            .seek(io::SeekFrom::Start(to.byte))
+            .and_then(|_| fill_buf(&mut self.buf_reader));
+        if let Err(e) = res {
+            // the buffer does not correspond to the position any more
+            self.state = State::Finished;
+            return Err(e.into());
+        }
         self.search_pos = 0;
         self.buf_pos.reset(0);
         Ok(())
